@@ -766,3 +766,12 @@ Proof.
   - intros acc0 j u Hin. destruct (Hp j u Hin) as [H1 H2]. destruct acc0. rewrite (pending_progress_is_skipped ixa sk j u H1 H2). reflexivity.
   - intros acc0. destruct acc0. apply pending_query_abort_surfaces. exact Hc.
 Qed.
+
+(* every receipt number the terminal issues is recorded as it is — 0000 is a number like any other, not "no number" *)
+Lemma begin_records_any_receipt ixa ixs rn v : ixs <> ixa -> receipt_of v = Some rn ->
+  run_handler (h_begin ixa ixs) f_begin None [(ixs, v)] = ROk rn.
+Proof.
+  intros Hne Hr. rewrite (begin_records_last_receipt ixa ixs Hne [(ixs, v)] None).
+  - cbn [fold_left fst snd]. rewrite N.eqb_refl, Hr. reflexivity.
+  - intros i v0 [E|[]]. injection E as <- _. exact Hne.
+Qed.
